@@ -17,6 +17,25 @@ CHECKS = {
               "with prctl), Hypothesis. Names are NUL-free and <= 15 bytes; kernels other than the sandbox's are modelled from proc(5)."),
         design="DESIGN.md section 3 C06",
     ),
+    "C08": dict(
+        level="exploration",
+        technique="property-based testing (Hypothesis): generated meminfo/vmstat/zoneinfo -> independent integer re-statement of the documented formulas",
+        text=("Generated /proc/meminfo, /proc/vmstat and /proc/zoneinfo contents (any subset of optional fields, container-distorted magnitudes, zero totals) "
+              "are parsed by the real code; every field, the percent rounding, the clamps, the watermark fallback and the warning text are compared with an independent model. "
+              "Search, not proof."),
+        note=("Trusted: vlib/simk.py file layer, the model's reading of kernel commit 34e431b0ae; meminfo renderer calibrated byte-exactly against the live file. "
+              "Values <= 2^50 kB; no blank meminfo lines."),
+        design="DESIGN.md section 3 C08",
+    ),
+    "C09": dict(
+        level="exploration",
+        technique="property-based testing (Hypothesis): generated net/dev, diskstats, sysfs block tree and statvfs tuples -> column-table oracle from proc(5)/iostats.txt",
+        text=("Generated device tables in every supported line layout are decoded by the real code and compared per device and in total (whole disks only) with column tables "
+              "written from the kernel documentation; disk_usage arithmetic is checked on generated statvfs tuples. One recorded known finding (Linux 2.4 15-field layout) is "
+              "excluded from the search and re-checked from its replay file. Search, not proof."),
+        note=("Trusted: vlib/simk.py file layer, proc(5)/iostats.txt column meanings. statvfs tuples satisfy bavail <= bfree <= blocks; unique device names."),
+        design="DESIGN.md section 3 C09",
+    ),
 }
 
 ALL = ["C%02d" % i for i in range(1, 21)]
